@@ -65,6 +65,12 @@ def emitOf (j : Json) : Except String Emit := do
   | "new" => pure (.viaNew (← getText j "method") (← getObj j "params"))
   | k => throw s!"emit kind {k}"
 
+/-- an emit marked `"unencodable": true` is an attempt the sender refuses (the model has no unencodable values) -/
+def attemptOf (j : Json) : Except String Attempt :=
+  match j.getObjVal? "unencodable" with
+  | .ok (.bool true) => pure .refused
+  | _ => do pure (.enc (← emitOf j))
+
 def answerOf (j : Json) : Except String Answer :=
   match j.getObjVal? "ok" with
   | .ok r => pure (.ok (ofLean r))
@@ -99,18 +105,18 @@ def handle (op : String) (j : Json) : Except String Json := do
     | some p => pure (Json.mkObj [("ok", paramsJson p)])
     | none => pure (Json.mkObj [("error", true)])
   | "call" =>
-    let es ← (← getArr j "emits").toList.mapM emitOf
-    pure (traceJson (call facts (← getBool j "sse") (← handlersOf j) (← getNat j "reqId") es (← answerOf (← j.getObjVal? "answer"))))
+    let as ← (← getArr j "emits").toList.mapM attemptOf
+    pure (traceJson (callA facts (← getBool j "sse") (← handlersOf j) (← getNat j "reqId") as (← answerOf (← j.getObjVal? "answer"))))
   | "hcall" =>
     let hist ← (← getArr j "history").toList.mapM regOpOf
-    let es ← (← getArr j "emits").toList.mapM emitOf
+    let es := sent (← (← getArr j "emits").toList.mapM attemptOf)
     let tr := callH facts (← getBool j "sse") (tableAfter hist) (← getNat j "reqId") es (← answerOf (← j.getObjVal? "answer"))
     pure (Json.mkObj [("trace", Json.arr (tr.map taggedJson).toArray)])
   | "frames" =>
-    let es ← (← getArr j "emits").toList.mapM emitOf
+    let as ← (← getArr j "emits").toList.mapM attemptOf
     let a ← answerOf (← j.getObjVal? "answer")
     let reqId ← getNat j "reqId"
-    let fs := if (← getBool j "sse") then serverFrames reqId es a else [answerJson reqId a]
+    let fs := if (← getBool j "sse") then framesA reqId as a else [answerJson reqId a]
     pure (Json.mkObj [("frames", Json.arr (fs.map toLean).toArray)])
   | "read" =>
     let frames := (← getArr j "frames").toList.map ofLean
